@@ -15,8 +15,11 @@
 package main
 
 import (
+	"bytes"
+	"compress/gzip"
 	"crypto"
 	"crypto/rand"
+	"crypto/sha256"
 	"crypto/x509"
 	"crypto/x509/pkix"
 	"encoding/base64"
@@ -24,6 +27,7 @@ import (
 	"encoding/json"
 	"encoding/pem"
 	"fmt"
+	"io"
 	"math/big"
 	"os"
 	"os/exec"
@@ -123,6 +127,58 @@ func newWorld(sysCA *lib.CA) *world {
 		signers.Store(kp.Pub.KeyID, kp.Signer)
 	}
 	return w
+}
+
+// keyIDWith recomputes the id of key k for another keyid_hash_algorithms value, independently of the library:
+// SHA-256 over the canonical JSON of {keytype, scheme, keyid_hash_algorithms, keyval:{public}}
+func keyIDWith(k intoto.Key, algs []string) string {
+	b, err := cjson.EncodeCanonical(map[string]any{
+		"keytype": k.KeyType, "scheme": k.Scheme, "keyid_hash_algorithms": algs,
+		"keyval": map[string]string{"public": k.KeyVal.Public},
+	})
+	if err != nil {
+		panic(err)
+	}
+	h := sha256.Sum256(b)
+	return hex.EncodeToString(h[:])
+}
+
+// aliasItem: a link of certificate functionary f, signed with f's private key and carrying f's certificate, whose
+// signature names the id of the SAME key computed with keyid_hash_algorithms = algs; file named after that id.
+// The functionary is identified by the id of the certificate's key: an alias is not another functionary.
+func (w *world) aliasItem(st stepShape, f *certFn, algs []string) *item {
+	id := keyIDWith(f.leaf.Key, algs)
+	mb := &intoto.Metablock{Signed: baseLink(st.name), Signatures: []intoto.Signature{}}
+	msg, err := cjson.EncodeCanonical(mb.Signed)
+	if err != nil {
+		panic(err)
+	}
+	mb.Signatures = append(mb.Signatures, intoto.Signature{KeyID: id,
+		Sig: hex.EncodeToString(lib.SignRaw(f.leaf.Signer, msg)), Certificate: f.leaf.Key.KeyVal.Certificate})
+	return &item{name: linkName(st.name, id), content: dumpMB(mb), label: "cert-keyid-alias-" + strings.Join(algs, "+")}
+}
+
+// bigItem: an honest link whose byproducts hold `size` bytes of recorded stdout, signed by pool key idx or certificate functionary f
+func (w *world) bigItem(st stepShape, sc *scenario, idx int, f *certFn, size int) *item {
+	l := baseLink(st.name)
+	l.ByProducts = map[string]interface{}{"stdout": strings.Repeat("all work and no play makes jack a dull boy\n", size/43+1)[:size], "stderr": "", "return-value": 0}
+	mb := &intoto.Metablock{Signed: l, Signatures: []intoto.Signature{}}
+	it := &item{label: fmt.Sprintf("honest-link-of-%d-MiB", size>>20)}
+	if f != nil {
+		rawSign(mb, f.leaf.Key)
+		it.name = linkName(st.name, f.leaf.Key.KeyID)
+		if w.certAuthorised(f, st, sc) {
+			it.honest = f.leaf.Key.KeyID
+		}
+	} else {
+		rawSign(mb, w.pool[idx].Priv)
+		it.name = linkName(st.name, w.pool[idx].Pub.KeyID)
+		if keyAuthorised(idx, st, sc) {
+			it.honest = w.pool[idx].Pub.KeyID
+		}
+	}
+	it.content = dumpMB(mb)
+	return it
 }
 
 // borrowedItem: a link signed by an outsider whose signature entry's cert field holds an authorised functionary's
@@ -313,9 +369,10 @@ func caseVariant(b []byte, mixed bool) ([]byte, string) {
 // ---------------------------------------------------------------- scenario
 
 type fileIn struct {
-	Name    string `json:"name"`
-	Content string `json:"content_b64"`
-	Label   string `json:"label"`
+	Name      string `json:"name"`
+	Content   string `json:"content_b64"`
+	ContentGz string `json:"content_gz_b64,omitempty"` // large files: gzip, then base64 (content_b64 is empty)
+	Label     string `json:"label"`
 }
 
 type input struct {
@@ -324,6 +381,7 @@ type input struct {
 	Files         []fileIn            `json:"files"`
 	Honest        map[string][]string `json:"honest_ids"`                 // generator ground truth: step -> ids that must be counted
 	SystemTrust   string              `json:"system_trust_pem,omitempty"` // the case ran in a process whose SSL_CERT_FILE held this CA
+	Repeats       int                 `json:"repeats,omitempty"`          // real calls per observable when not the default (large files)
 	E2E           bool                `json:"e2e,omitempty"`              // observable includes the two full verification entry points
 	DSSELayout    bool                `json:"dsse_layout,omitempty"`
 }
@@ -351,6 +409,7 @@ type scenario struct {
 	alias    map[int]int  // layout.Keys[id of pool[a]] = pool[b] (inconsistent layout: validateLayoutKeys would refuse it)
 	shortIDs map[int]bool // the step lists, and the layout defines the key under, only the first 8 characters of the id
 	noOracle bool
+	repeats  int               // 0 = default
 	e2e      bool              // also run the full InTotoVerify / InTotoVerifyWithDirectory (no later stage can fail by construction)
 	items    map[string][]item // step name -> items
 }
@@ -653,6 +712,14 @@ func makers() []maker {
 		leafItem("frank", "cert-frank-p521"),
 		leafItem("grace", "cert-grace-rsa2048-under-root"),
 		leafItem("heidi", "cert-heidi-rsa3072"),
+		// the same certificate functionary under the id of its key computed with another keyid_hash_algorithms value
+		{"cert-keyid-alias", func(w *world, sc *scenario, st stepShape, r *lib.Rng) *item {
+			f := w.leaves[honestCerts[r.Intn(len(honestCerts))]]
+			if r.Chance(2, 3) {
+				sc.addItem(st, w.certItem(st, sc, f, "cert-"+f.name))
+			}
+			return w.aliasItem(st, f, [][]string{{"sha256"}, {"sha512"}, {"sha512", "sha256"}}[r.Intn(3)])
+		}},
 		// an outsider borrows an authorised functionary's certificate: cert field = that certificate + the outsider's key block
 		{"borrowed-cert-plus-own-key-block", func(w *world, sc *scenario, st stepShape, r *lib.Rng) *item {
 			f := w.leaves[honestCerts[r.Intn(len(honestCerts))]]
@@ -1010,6 +1077,49 @@ func witnessScenarios(w *world, r *lib.Rng) []*scenario {
 		}
 		out = append(out, sc)
 	}
+	// ONE certificate functionary delivering two or three links under the default id and the ["sha256"] / ["sha512"] ids of its key
+	for v := 0; v < 6; v++ {
+		sc := &scenario{klass: "cert-keyid-hash-alg-aliases", defined: map[int]bool{}, items: map[string][]item{}, roots: "root", interIn: "layout"}
+		f := w.leaves[honestCerts[v%len(honestCerts)]]
+		st := stepShape{name: "build", threshold: 2 + v%2, ccs: []intoto.CertificateConstraint{ccAll()}}
+		if v >= 3 {
+			st.ccs = []intoto.CertificateConstraint{ccCN(f.cn)}
+		}
+		sc.steps = []stepShape{st}
+		sc.addItem(st, w.certItem(st, sc, f, "cert-"+f.name))
+		sc.addItem(st, w.aliasItem(st, f, []string{"sha256"}))
+		if v%2 == 1 || v >= 4 {
+			sc.addItem(st, w.aliasItem(st, f, []string{"sha512"}))
+		}
+		out = append(out, sc)
+	}
+	// accept-side twins: two DIFFERENT certificate functionaries meet threshold 2 (also with alias links of one of them around)
+	for v := 0; v < 4; v++ {
+		sc := &scenario{klass: "two-certificate-functionaries", defined: map[int]bool{}, items: map[string][]item{}, roots: "root", interIn: "layout"}
+		f, g := w.leaves[honestCerts[v%len(honestCerts)]], w.leaves[honestCerts[(v+3)%len(honestCerts)]]
+		st := stepShape{name: "build", threshold: 2, ccs: []intoto.CertificateConstraint{ccAll()}}
+		sc.steps = []stepShape{st}
+		sc.addItem(st, w.certItem(st, sc, f, "cert-"+f.name))
+		sc.addItem(st, w.certItem(st, sc, g, "cert-"+g.name))
+		if v >= 2 {
+			sc.addItem(st, w.aliasItem(st, f, []string{"sha256"}))
+			sc.addItem(st, w.aliasItem(st, g, []string{"sha512"}))
+		}
+		out = append(out, sc)
+	}
+	// the threshold is met only if an honest, validly signed link of about 17 MiB is counted (two cases per run: cost)
+	for v := 0; v < 2; v++ {
+		sc := &scenario{klass: "large-honest-link-17MiB", defined: map[int]bool{4: true, 5: true}, items: map[string][]item{}, roots: "root", interIn: "layout", repeats: 2}
+		st := stepShape{name: "build", threshold: 2, pubkeys: []int{4, 5}, ccs: []intoto.CertificateConstraint{ccAll()}}
+		sc.steps = []stepShape{st}
+		sc.addItem(st, w.keyItem(st, sc, 4, "key-authorised"))
+		if v == 0 {
+			sc.addItem(st, w.bigItem(st, sc, 5, nil, 17<<20))
+		} else {
+			sc.addItem(st, w.bigItem(st, sc, 0, w.leaves["carol"], 17<<20+12345))
+		}
+		out = append(out, sc)
+	}
 	// an outsider's link carrying an authorised functionary's certificate plus the outsider's own key block
 	for v := 0; v < 8; v++ {
 		sc := &scenario{klass: "borrowed-certificate-with-own-key-block", defined: map[int]bool{}, items: map[string][]item{}, roots: "root", interIn: "layout"}
@@ -1342,9 +1452,19 @@ func (w *world) buildInput(sc *scenario) input {
 	in.Layout = l
 	in.SystemTrust = w.sysPEM
 	in.E2E = sc.e2e
+	in.Repeats = sc.repeats
 	for _, st := range sc.steps {
 		for _, it := range sc.items[st.name] {
-			f := fileIn{Name: it.name, Label: it.label, Content: base64.StdEncoding.EncodeToString(it.content)}
+			f := fileIn{Name: it.name, Label: it.label}
+			if len(it.content) > 1<<20 {
+				var zb bytes.Buffer
+				zw := gzip.NewWriter(&zb)
+				zw.Write(it.content)
+				zw.Close()
+				f.ContentGz = base64.StdEncoding.EncodeToString(zb.Bytes())
+			} else {
+				f.Content = base64.StdEncoding.EncodeToString(it.content)
+			}
 			if it.label == "directory" {
 				f.Content = "DIR"
 			}
@@ -1370,6 +1490,19 @@ func materialise(in input, dir string) {
 		b, err := base64.StdEncoding.DecodeString(f.Content)
 		if err != nil {
 			panic(err)
+		}
+		if f.ContentGz != "" {
+			z, err := base64.StdEncoding.DecodeString(f.ContentGz)
+			if err != nil {
+				panic(err)
+			}
+			zr, err := gzip.NewReader(bytes.NewReader(z))
+			if err != nil {
+				panic(err)
+			}
+			if b, err = io.ReadAll(zr); err != nil {
+				panic(err)
+			}
 		}
 		if err := os.WriteFile(p, b, 0o644); err != nil {
 			panic(err)
@@ -1444,7 +1577,11 @@ func runImpl(in input, dir string) string {
 	for i := range seen {
 		seen[i] = map[string]int{}
 	}
-	for rep := 0; rep < repeats; rep++ {
+	reps := repeats
+	if in.Repeats > 0 {
+		reps = in.Repeats
+	}
+	for rep := 0; rep < reps; rep++ {
 		// the whole layout on one LoadLayoutCertificates result (as InTotoVerify does) ...
 		l := copyLayout(in.Layout)
 		rp, ip, err := intoto.LoadLayoutCertificates(l, inter)
@@ -1526,7 +1663,11 @@ func runE2E(in input, dir string, inter [][]byte, withDir bool, params map[strin
 		})
 	}
 	seen := map[string]int{}
-	for i := 0; i < 6; i++ {
+	e2eReps := 6
+	if in.Repeats > 0 {
+		e2eReps = 1
+	}
+	for i := 0; i < e2eReps; i++ {
 		seen[one()]++
 	}
 	if len(seen) == 1 {
